@@ -1885,6 +1885,11 @@ class RedunBackendDb(RedunBackend):
                     for task in subtree_tasks:
                         self.record_value(task)
 
+                # Likewise record the argument values first, so that the CallNode is committed
+                # together with its Arguments (an existing CallNode is never recorded again).
+                for eval_arg in chain(eval_args[0], eval_args[1].values()):
+                    self.record_value(eval_arg)
+
                 session.add(
                     CallNode(
                         call_hash=call_hash,
